@@ -8,7 +8,7 @@ Definition unary_node (f : Z) : bool := negb (is_terminal f) && negb (is_arity_2
 Fixpoint q_ok (q : qexpr) : bool :=
   match q with
   | QAtom (TVarConst n k) => (n =? VARIABLE) && (0 <=? k)
-  | QAtom (TInt k) => true
+  | QAtom (TInt k) => k <=? 9223372036854775807
   | QAtom (TLit _) => true
   | QAtom _ => false
   | QOp1 f a => unary_node f && q_ok a
@@ -151,7 +151,7 @@ Qed.
 Theorem build_post q : q_ok q = true -> forall b, BInv b -> exists b', run_b (post q) (Some b) = Some b' /\ built q b b'.
 Proof.
   induction q as [t|f a IHa|o a IHa x IHx]; intros Q b I; cbn [q_ok] in Q.
-  - destruct t as [| | | |n k|k|txt|]; try discriminate Q; cbn [post run_b fold_left build_step]; eexists; (split; [reflexivity|]).
+  - destruct t as [| | | |n k|k|txt|]; try discriminate Q; cbn [post run_b fold_left build_step]; try rewrite Q; eexists; (split; [reflexivity|]).
     + apply andb_prop in Q as [En _]. apply Z.eqb_eq in En. subst n.
       eapply atom_built; try exact I; try reflexivity. cbn [q_lits]. rewrite app_nil_r. reflexivity.
     + eapply atom_built; try exact I; try reflexivity. cbn [q_lits]. rewrite app_nil_r. reflexivity.
@@ -291,7 +291,7 @@ End Sem.
 (* ---------- printed trees are well-formed parse trees ---------- *)
 Fixpoint p_ok (e : pexpr) : bool :=
   match e with
-  | PVar k => 0 <=? k | PInt _ | PLitc _ => true
+  | PVar k => 0 <=? k | PInt k => k <=? 9223372036854775807 | PLitc _ => true
   | POp1 f a => unary_node f && p_ok a
   | PAdd a b | PSub a b | PSafe a b => p_ok a && p_ok b
   | PBin n pr _ a b => is_arity_2 n && (0 <? pr) && p_ok a && p_ok b
@@ -311,7 +311,7 @@ Lemma recov_ok e : p_ok e = true -> forall pending, match pending with None => T
 Proof.
   induction e as [k|k|t|f a IHa|a IHa b IHb|a IHa b IHb|n pr w a IHa b IHb|a IHa b IHb]; cbn [p_ok]; intros H pending HP; cbn [recov].
   - destruct pending as [t0|]; cbn [q_ok]; rewrite ?HP, ?H; reflexivity.
-  - destruct pending as [t0|]; cbn [q_ok]; rewrite ?HP; reflexivity.
+  - destruct pending as [t0|]; cbn [q_ok T_ADD]; rewrite ?HP, ?H; reflexivity.
   - destruct pending as [t0|]; cbn [q_ok]; rewrite ?HP; reflexivity.
   - apply andb_prop in H as [H1 H2]. specialize (IHa H2 None I).
     destruct pending as [t0|]; cbn [q_ok T_ADD]; rewrite ?HP, H1, IHa; reflexivity.
